@@ -45,6 +45,32 @@ func funcKey(fn *types.Func) string {
 	return pk + "." + recv + fn.Name()
 }
 
+// baselineSigs: function key -> signature string (parameter and result types without names).
+var baselineSigs = map[string]string{}
+
+// funcAlias: baseline function key -> the name it now has (a renamed private function).
+var funcAlias = map[string]string{}
+
+func sigString(fn *types.Func) string {
+	sig, _ := fn.Type().(*types.Signature)
+	if sig == nil {
+		return ""
+	}
+	q := func(p *types.Package) string { return p.Path() }
+	var ps, rs []string
+	for i := 0; i < sig.Params().Len(); i++ {
+		ps = append(ps, types.TypeString(sig.Params().At(i).Type(), q))
+	}
+	for i := 0; i < sig.Results().Len(); i++ {
+		rs = append(rs, types.TypeString(sig.Results().At(i).Type(), q))
+	}
+	v := ""
+	if sig.Variadic() {
+		v = "..."
+	}
+	return "(" + strings.Join(ps, ",") + v + ")(" + strings.Join(rs, ",") + ")"
+}
+
 func loadBaseline(verifDir string) (map[string]bool, error) {
 	f, err := os.Open(filepath.Join(verifDir, "baseline_funcs.txt"))
 	if err != nil {
@@ -56,7 +82,19 @@ func loadBaseline(verifDir string) (map[string]bool, error) {
 	for sc.Scan() {
 		l := strings.TrimSpace(sc.Text())
 		if l != "" && !strings.HasPrefix(l, "#") {
-			out[l] = true
+			if strings.HasPrefix(l, "field:") {
+				fp := strings.SplitN(strings.TrimPrefix(l, "field:"), "\t", 2)
+				if len(fp) == 2 {
+					baselineFieldOrder[fp[0]] = len(baselineFields)
+					baselineFields[fp[0]] = fp[1]
+				}
+				continue
+			}
+			parts := strings.SplitN(l, "\t", 2)
+			out[parts[0]] = true
+			if len(parts) == 2 {
+				baselineSigs[parts[0]] = parts[1]
+			}
 		}
 	}
 	return out, sc.Err()
@@ -96,16 +134,39 @@ func writeBaseline(root, verifDir string) error {
 			for _, d := range f.Decls {
 				if fd, ok := d.(*ast.FuncDecl); ok {
 					if fn, ok := pk.TypesInfo.Defs[fd.Name].(*types.Func); ok {
-						keys = append(keys, funcKey(fn))
+						keys = append(keys, funcKey(fn)+"\t"+sigString(fn))
 					}
 				}
 			}
 		}
 	}
 	sort.Strings(keys)
+	var fields []string
+	for _, pk := range pkgs {
+		sc := pk.Types.Scope()
+		names := sc.Names()
+		sort.Strings(names)
+		for _, nm := range names {
+			tn, ok := sc.Lookup(nm).(*types.TypeName)
+			if !ok {
+				continue
+			}
+			st, ok := tn.Type().Underlying().(*types.Struct)
+			if !ok {
+				continue
+			}
+			for i := 0; i < st.NumFields(); i++ {
+				f := st.Field(i)
+				fields = append(fields, "field:"+pk.PkgPath+"."+nm+"."+f.Name()+"\t"+types.TypeString(f.Type(), func(p *types.Package) string { return p.Path() }))
+			}
+		}
+	}
 	var b bytes.Buffer
 	b.WriteString("# functions of cnotch/ipchub at the tree the rules were written against; calls to functions that are\n# not listed here are inlined by the normalisation pre-pass before the rules are evaluated a second time\n")
 	for _, k := range keys {
+		b.WriteString(k + "\n")
+	}
+	for _, k := range fields {
 		b.WriteString(k + "\n")
 	}
 	return os.WriteFile(filepath.Join(verifDir, "baseline_funcs.txt"), b.Bytes(), 0o644)
@@ -144,6 +205,54 @@ func normalize(root string, overlay map[string][]byte, baseline map[string]bool)
 					}
 					decls[fn] = fd
 					declFile[fn] = f
+				}
+			}
+			// a new function with the receiver and signature of exactly one baseline function that no longer
+			// exists is that function renamed: keep it (rules find it through funcAlias) instead of inlining it
+			if len(decls) > 0 {
+				present := map[string]bool{}
+				for _, f := range pk.Syntax {
+					for _, d := range f.Decls {
+						if fd, ok := d.(*ast.FuncDecl); ok {
+							if fn, ok := pk.TypesInfo.Defs[fd.Name].(*types.Func); ok {
+								present[funcKey(fn)] = true
+							}
+						}
+					}
+				}
+				recvOf := func(key string) string {
+					rest := strings.TrimPrefix(key, pk.PkgPath+".")
+					if i := strings.LastIndex(rest, "."); i >= 0 {
+						return rest[:i]
+					}
+					return ""
+				}
+				for fn := range decls {
+					var match []string
+					for old, sig := range baselineSigs {
+						if present[old] || !strings.HasPrefix(old, pk.PkgPath+".") || strings.Contains(strings.TrimPrefix(old, pk.PkgPath+"."), "/") {
+							continue
+						}
+						if sig == sigString(fn) && recvOf(old) == recvOf(funcKey(fn)) {
+							match = append(match, old)
+						}
+					}
+					if len(match) == 1 {
+						// and no other new function competes for the same old name
+						rivals := 0
+						for g := range decls {
+							if g != fn && sigString(g) == sigString(fn) && recvOf(funcKey(g)) == recvOf(funcKey(fn)) {
+								rivals++
+							}
+						}
+						if rivals == 0 {
+							if funcAlias[match[0]] == "" {
+								log = append(log, fmt.Sprintf("%s is taken to be the renamed %s", funcKey(fn), match[0]))
+							}
+							funcAlias[match[0]] = fn.Name()
+							delete(decls, fn)
+						}
+					}
 				}
 			}
 			if len(decls) == 0 {
